@@ -146,6 +146,18 @@ package node_manager
 //@   -- an epoch change happens with the operator's witness, or without it only once it is due
 //@   ensures[c18-forced] Store != old(Store) ==> wit || due
 
+// The consensus configuration (validator pool, view, parameters) is installed by InitConfig once, by the genesis
+// transaction: at that point no governance view is stored and there are no consensus validators an operator
+// could be derived from. Once a view exists the configuration changes only through the witnessed operations
+// below; a later InitConfig fails and leaves the store unchanged.
+//@ func InitConfig
+//@   property C18
+//@   mode abstract
+//@   requires native != nil && native.tx != nil
+//@   modifies Store
+//@   ensures[c18-init-once] err == nil ==> old(Store[viewKey()]) == None
+//@   ensures[c18-init-rejected] old(Store[viewKey()]) != None ==> err != nil && Store == old(Store)
+
 //@ func UpdateConfig
 //@   property C18
 //@   mode abstract
